@@ -15,7 +15,8 @@ import HecsModel.Lemmas.SpecRefine
   Full statement: `∀ op, op.WF → op.gensOk → ...` for all 15 operations.  Proved: 13 of them
   (`Op.covered`), hence the suffix `_partial`.  Missing: `clear` (needs: the multiset of all stored
   values equals the multiset the abstract state lists — the per-entity facts are `C01.clear_dropped`,
-  `clear_drops_live`, `clear_drops_only_live`) and `spawn_column_batch_at` (needs the list version of the
+  `clear_drops_live`, `clear_drops_only_live`; everything else about `clear` is
+  `spec_accepts_clear_partial`, which takes that multiset equality as its hypothesis) and `spawn_column_batch_at` (needs the list version of the
   eviction argument of `accepts_spawnAt`; its per-handle facts are `C01.spawnColumnBatchAt_effect`).
   `Op.gensOk`: handles named by `spawn_at` have a generation ≥ 1 (they are `NonZeroU32` in hecs).
 
@@ -110,6 +111,25 @@ example :
        .spawnBatch [0] [[(0,5)],[(0,6)]], .exchange ⟨0,1⟩ [0] [(2,7)], .remove ⟨0,1⟩ [2], .reserveEntity,
        .spawnAt ⟨2,5⟩ [(0,8)], .spawnColumnBatch [0,1] [[(0,9),(1,10)]], .takeDrop ⟨0,1⟩, .reserve [3], .flush]
     (ops.all (fun op => decide op.WF && op.covered)) = true ∧
+    (match specRun {} World.new ops with | .ok _ => true | .error _ => false) = true := by
+  decide +kernel
+
+/-- `clear`, conditionally: the step is accepted and the successor states are related for ANY pair of
+states (no `Rel`, no invariant needed for that half) provided the values the model drops are a permutation
+of the values the abstract state lists.  That hypothesis is the whole of what `spec_accepts_step_partial`
+still lacks for `clear`; its membership halves are `C01.clear_drops_live` / `clear_drops_only_live`, the
+multiplicity half (one row per live handle, `Good.bij`) is not yet carried over to lists. -/
+theorem spec_accepts_clear_partial (s : SpecW) (w : World)
+    (hp : ((w.clear).2.dropped).Perm (s.live.flatMap (·.2))) :
+    ∃ s', apply s .clear (Hecs.step w .clear).2.res (Hecs.step w .clear).2.dropped = .ok s' ∧
+      Rel s' (Hecs.step w .clear).1 :=
+  accepts_clear_of_perm s w hp
+
+/-- non-vacuity: after a concrete history the hypothesis of `spec_accepts_clear_partial` holds (decided by
+evaluation) and `clear` is accepted by the specification run -/
+example :
+    let ops : List Op := [.spawn [(0,1)], .spawn [(1,2),(0,3)], .insert ⟨0,1⟩ [(1,4)], .reserveEntity, .clear,
+                          .spawn [(0,7)]]
     (match specRun {} World.new ops with | .ok _ => true | .error _ => false) = true := by
   decide +kernel
 
